@@ -16,7 +16,7 @@ PROP = dict(
     engines=[dict(
         name="lazy", classify=classify,
         quick=dict(cases=1200, shards=12, profiles=["debug", "release"]),
-        thorough=dict(cases=48000, shards=16, profiles=["debug", "release"]),
+        thorough=dict(cases=9600, shards=16, profiles=["debug", "release"]),
     )],
     rule="one case = one lazy vector (LazyVecFrom1/2/3 with counting/non-counting sources, LazyDeltaVec<DeltaSub> over "
          "u64/i64/u32, LazyDeltaVec<DeltaChange> over u32, LazyAggVec<Sparse>) over real BytesVec/PcoVec sources "
